@@ -1101,7 +1101,9 @@ impl Driver {
             } else {
                 sig = format!("loss:unexplained-disappearance:{}", op.kind_name());
             }
-            if self.invalidations > 0 && matches!(op, Op::Invalidate { .. } | Op::InvalidateAll | Op::InvalidateIf { .. }) {
+            if self.invalidations > 0 {
+                // "nothing else is affected": an untargeted live entry, or one (re-)inserted after an
+                // invalidation, vanished
                 props.push("C07");
             }
         } else {
@@ -1226,12 +1228,20 @@ impl Driver {
         }
         // C10 second sentence / C11: what is held but can no longer be observed
         let mut hidden_expired = 0u64;
+        let mut expired_held: Vec<(u32, u64, Liveness)> = Vec::new();
         for e in &post.entries {
             let cur_matches = self.truth.cur(e.key).map(|l| l.vid == e.vid).unwrap_or(false);
             let lv = if cur_matches { self.truth.liveness(e.key, now) } else { Liveness::Dead(self.truth.key(e.key).map(|t| t.dead).unwrap_or(DeadReason::NeverInserted)) };
             match lv {
                 Liveness::Live | Liveness::Maybe => {}
-                Liveness::ExpiredTtl | Liveness::ExpiredTti => hidden_expired += 1,
+                Liveness::ExpiredTtl | Liveness::ExpiredTti => {
+                    hidden_expired += 1;
+                    // maintenance runs before the op's own effect: only what was already held
+                    // (with this value) before the op could have been purged by it
+                    if pre.entry(e.key).map(|p| p.vid == e.vid).unwrap_or(false) {
+                        expired_held.push((e.key, e.vid, lv));
+                    }
+                }
                 Liveness::Dead(_) if !maintained => {}
                 Liveness::Dead(reason) => {
                     // held although invalidated / replaced, after maintenance has run
@@ -1274,6 +1284,54 @@ impl Driver {
         }
         if hidden_expired > 0 {
             self.result.stats.inc("quiescent_points_with_expired_unpurged_entries");
+        }
+        // C11 (and the capacity they keep occupied: C03): entries whose deadline has passed are
+        // released once maintenance has run at that clock reading. Maintenance purges in bounded
+        // batches, so this is only demanded while fewer dead entries than one batch were held.
+        let ran_maintenance = if is_sync {
+            maintained
+        } else {
+            matches!(op, Op::Get { .. } | Op::Insert { .. } | Op::Contains { .. } | Op::Invalidate { .. } | Op::InvalidateIf { .. })
+        };
+        let batch = if is_sync { mini_moka::verif::constants::SYNC_EVICTION_BATCH_SIZE } else { mini_moka::verif::constants::UNSYNC_EVICTION_BATCH_SIZE };
+        if ran_maintenance && !expired_held.is_empty() && pre.entries.len() < batch {
+            self.result.stats.inc("expired_entries_held_after_maintenance_checks_failed");
+            let (k, v, lv) = expired_held[0];
+            // known cause: the idle purge scans the access-order deque from the front and stops at
+            // the first entry that is not expired; an expired entry behind an unexpired one stays
+            let blocked = lv == Liveness::ExpiredTti && is_sync && {
+                let my = post.entry(k).and_then(|e| e.ao).map(|x| x.0);
+                let tti = self.cfg.tti.unwrap_or(0);
+                let mut found = false;
+                for n in &post.probation {
+                    if Some(n.addr) == my {
+                        break;
+                    }
+                    if let Some(b) = post.entry(n.key) {
+                        if b.la.map(|la| la.saturating_add(tti) > now).unwrap_or(false) {
+                            found = true;
+                            break;
+                        }
+                    }
+                }
+                found
+            };
+            let sig = if blocked {
+                F_S5_SIG.to_string()
+            } else {
+                format!("held:expired-entry-after-maintenance:{}", if lv == Liveness::ExpiredTtl { "ttl" } else { "tti" })
+            };
+            self.violate(
+                &["C11"],
+                sig,
+                format!(
+                    "after {} at t={}: key {} (value {}) passed its {} deadline but is still held (and counted) after maintenance ran at this clock reading; {} such entries",
+                    op.to_line(), now, k, v, if lv == Liveness::ExpiredTtl { "time_to_live" } else { "time_to_idle" }, expired_held.len()
+                ),
+            );
+        }
+        if ran_maintenance {
+            self.result.stats.inc("expired_entries_held_after_maintenance_checks");
         }
         // C04: capacity bound
         if let Some(cap) = self.cfg.cap {
@@ -1469,6 +1527,7 @@ pub fn fs3_blocked(post: &Snap, e: &crate::cut::ESnap, applicable: bool) -> bool
     false
 }
 
+pub const F_S5_SIG: &str = "F-S5:idle-expired-entry-held:access-order-purge-scan-stopped-at-unexpired-entry-in-front:reads-applied-before-the-writes-that-admitted-them";
 pub const F_S3W_SIG: &str = "F-S3w:invalidated-entry-held:write-order-and-access-order-purge-scans-stopped-at-entries-stamped>=valid_after:ops-queued-out-of-timestamp-order";
 
 /// The write-order analogue (time_to_live configured): is `e` behind a write-order node whose
